@@ -27,6 +27,9 @@ CLAIMED = {
     "C06": ("fault_enumeration", "runtime monitor with fault injection at every radio-call position; every frame handed to the radio is decoded by the reference codec and counters checked for strict increase",
             "Base histories over the event alphabet are re-run once per radio call with an injected error at that call (plus sampled double faults and near-2^32 sessions) on nb, async and async+ClassC front-ends; the full counter of every uplink is recovered by MIC verification and must strictly increase until SessionExpired.",
             "Trusts the reference codec; a frame passed to tx counts as handed to the radio even if the call then errors; guarantee ends once expiry was reported.", "6/C06"),
+    "C07": ("exploration", "twin-run comparator (2-safety monitor): two devices with identical configuration and RNG stream driven in lock-step, one additionally receiving frames the reference codec classifies as rejected; all radio requests and responses compared to the end of the history",
+            "Histories that first create state to lose (pending sticky answers, owed ACK, ADR counter, near-wrap counters), then insert 1-3 rejected frames of 10 kinds (random, every single-bit flip, other session, replay, stale, far future, reflected own uplink, JoinAccept while joined, oversized, truncated) at RX1/RX2/before an authentic frame/Class C gaps, then >= 4 further uplinks including one after an accepted downlink; join attempts with rejected JoinAccept variants; three front-ends, nine regions.",
+            "Reference codec decides what counts as rejected; insertion only where twin A's window is silent; oversized frames compared on response and later transactions only.", "6/C07"),
     "C08": ("exploration", "runtime monitor: executable model of the stated clauses applied to the hook snapshot before/after each accepted Class A downlink and to the answers decoded (reference codec) from the following uplinks",
             "Every DataRate x TXPower x ChMaskCntl per region with 12 mask patterns, every DLSettings byte x 5 frequency classes, every DrRange byte x index/frequency classes, random single and multi-command downlinks (LinkADR blocks, answer overflow, up to 3 downlinks in sequence) in FOpts or port 0, RX1 or RX2, three front-ends; sticky answers followed over silent uplinks, a Class C downlink and the next Class A downlink.",
             "Must-reject list restricted to unambiguous cases; snapshot trusted as the device's state (its behavioural consequences are checked by C09/C10); state comparison skipped when trailing answers were dropped.", "6/C08"),
